@@ -25,6 +25,8 @@
 import PercevalModel.Lemmas.C18
 import PercevalModel.Lemmas.C18Ext
 import PercevalModel.Lemmas.C18Race
+import PercevalModel.Lemmas.C18More
+import PercevalModel.Lemmas.C18Refine
 
 namespace PM.C18
 open PM.SM
@@ -1179,5 +1181,191 @@ example : (routs true cfg1 [.exec call0, .w, .task (.ret ret0), .begin .get, .c,
       .begin .get, .c, .c, .c, .c, .c, .begin .get, .c, .c, .c, .c, .c]).filterMap (fun o => match o with
         | .step _ (some (.results v)) => some (some v) | .step _ (some (.exc .stillRunning)) => some none | _ => none) =
     [none, some (.dict (.mapped (.nat 7) [(2, some 3)])), some (.dict (.mapped (.nat 7) [(2, some 3)]))] := by decide
+
+/-! # Wave 7: bounded termination at access granularity (helpers: `Lemmas/C18More.lean`)
+
+The theorems of round 4 are safety statements (whatever is written is truthful and stays).  These add the
+liveness side, for ALL schedules: once the task function is left the worker needs at most 6 of its own steps to
+write the final state and end, whatever the caller does in between (`race_worker_ends`, `race_return_completes`,
+`race_raise_completes`); every API call of the caller ends within 10 of its own steps whatever the worker does
+(`race_api_call_wait_free`, both versions of the code: no call waits for the other thread); and the cancel clause
+is closed into an equation: the outcome is CANCELED iff the flag was set at the access where the worker reads it
+(`race_canceled_iff_flag_at_read`). -/
+
+/-- THE WORKER ENDS.  Once the task function has been left (returned or raised; `WPc.left`), any continuation of the
+schedule that grants the worker the accesses it still has to perform (`WPc.togo`, at most 6) — interleaved at will with
+steps of the caller, new API calls, refused `execute_async` calls — ends with the thread dead and the final state of
+ONE outcome `o` in memory; if the outcome was already decided at the worker (`fate`), it is that one. -/
+theorem race_worker_ends (cfg : Cfg) (w1 w2 : List REv)
+    (hl : (rafter true cfg w1).wpc.left = true) (hn : (rafter true cfg w1).wpc.togo ≤ wCount w2) :
+    ∃ o, (rafter true cfg (w1 ++ w2)).wpc = .dead o ∧ (rafter true cfg (w1 ++ w2)).st = o.st ∧
+      (rafter true cfg (w1 ++ w2)).msg = o.msg ∧ (rafter true cfg (w1 ++ w2)).alive = false ∧
+      (∀ o', (rafter true cfg w1).wpc.fate = some o' → o = o') :=
+  more_worker_ends cfg w1 w2 hl hn
+
+/-- the bound is uniform: six steps of the worker always suffice -/
+theorem race_worker_togo_le_six (pc : WPc) : pc.togo ≤ 6 := togo_le pc
+
+/-- A RETURN IS FOLLOWED BY SUCCESS OR CANCELED WITHIN SIX STEPS OF THE WORKER, FOR ALL SCHEDULES.  The task (in
+flight) returns `r`; whatever is interleaved, after six accesses of the worker the thread is dead and the job is
+SUCCESS with no message or CANCELED with 'User has canceled the job'; CANCELED only if `cancel()` has written the
+flag, and CANCELED whenever it had done so before the return. -/
+theorem race_return_completes (cfg : Cfg) (w1 w2 : List REv) (r : Ret)
+    (h : (rafter true cfg w1).wpc = .inTask) (hn : 6 ≤ wCount w2) :
+    ∃ c, (rafter true cfg (w1 ++ .task (.ret r) :: w2)).wpc = .dead (.returned r c) ∧
+      (rafter true cfg (w1 ++ .task (.ret r) :: w2)).st = (if c then .canceled else .success) ∧
+      (rafter true cfg (w1 ++ .task (.ret r) :: w2)).msg = (if c then .canceled else .none) ∧
+      (rafter true cfg (w1 ++ .task (.ret r) :: w2)).alive = false ∧
+      (c = true → (rafter true cfg (w1 ++ .task (.ret r) :: w2)).cancelReq = true) ∧
+      ((rafter true cfg w1).cancelReq = true → c = true) :=
+  more_return_completes cfg w1 w2 r h hn
+
+/-- A RAISE IS FOLLOWED BY ERROR WITHIN THREE STEPS OF THE WORKER, FOR ALL SCHEDULES, with the exception's own
+'<type>: <message>', whatever the cancel flag. -/
+theorem race_raise_completes (cfg : Cfg) (w1 w2 : List REv) (c t : Nat)
+    (h : (rafter true cfg w1).wpc = .inTask) (hn : 3 ≤ wCount w2) :
+    (rafter true cfg (w1 ++ .task (.raise c t) :: w2)).wpc = .dead (.raised c t) ∧
+    (rafter true cfg (w1 ++ .task (.raise c t) :: w2)).st = .error ∧
+    (rafter true cfg (w1 ++ .task (.raise c t) :: w2)).msg = .task c t ∧
+    (rafter true cfg (w1 ++ .task (.raise c t) :: w2)).alive = false :=
+  more_raise_completes cfg w1 w2 c t h hn
+
+/-- non-vacuity, and the bounds 6 / 3 are attained: one step fewer and the thread is still alive -/
+example : (rafter true cfg0 [.exec call0, .w]).wpc = .inTask ∧
+    (rafter true cfg0 [.exec call0, .w, .task (.ret ret0)]).wpc.left = true ∧
+    (rafter true cfg0 [.exec call0, .w, .task (.ret ret0)]).wpc.togo = 6 ∧
+    (rafter true cfg0 [.exec call0, .w, .task (.ret ret0), .w, .w, .w, .w, .w]).alive = true ∧
+    (rafter true cfg0 [.exec call0, .w, .task (.ret ret0), .w, .begin .status, .w, .c, .w, .w, .w, .c, .w]).wpc =
+      .dead (.returned ret0 false) ∧
+    (rafter true cfg0 [.exec call0, .w, .task (.raise 0 1), .w, .w]).alive = true ∧
+    (rafter true cfg0 [.exec call0, .w, .task (.raise 0 1), .w, .begin .cancel, .w, .c, .w]).st = .error := by decide
+
+/-- CANCELED IFF THE FLAG WAS SET WHEN THE WORKER READ IT (closes `race_cancel_before_return` /
+`race_cancel_after_flag_read_is_success` / the two examples into one equation): the worker stands before its read of
+`_cancel_requested` after the task returned `r`; its next access decides the outcome for good, and the outcome's
+`canceled` is exactly the value of the flag at that access. -/
+theorem race_canceled_iff_flag_at_read (cfg : Cfg) (w1 w2 : List REv) (r : Ret)
+    (h : (rafter true cfg w1).wpc = .ret2 r) :
+    (rafter true cfg (w1 ++ .w :: w2)).wpc.fate = some (.returned r (rafter true cfg w1).cancelReq) :=
+  more_flag_at_read cfg w1 w2 r h
+
+example : (rafter true cfg0 [.exec call0, .w, .task (.ret ret0), .w]).wpc = .ret2 ret0 ∧
+    (rafter true cfg0 [.exec call0, .w, .task (.ret ret0), .begin .cancel, .w, .c]).wpc = .ret2 ret0 ∧
+    (rafter true cfg0 [.exec call0, .w, .task (.ret ret0), .begin .cancel, .w, .c]).cancelReq = true := by decide
+
+/-- NO API CALL WAITS FOR THE OTHER THREAD (both versions of the code).  The caller is inside `job.status` + the reads
+of an observation, `cancel()` or `get_results()` (or idle); in any continuation that begins no new call, once the
+caller has been granted the accesses the call still needs (`CPc.cgo`, at most 10, counting the three writes of the
+repair), the call has ended — whatever the worker and the task do in between. -/
+theorem race_api_call_wait_free (fixed : Bool) (cfg : Cfg) (w1 w2 : List REv) (hb : noBegin w2 = true)
+    (hn : (rafter fixed cfg w1).cpc.cgo ≤ cCount w2) : (rafter fixed cfg (w1 ++ w2)).cpc = .idle :=
+  more_wait_free fixed cfg w1 w2 hb hn
+
+theorem race_api_call_at_most_ten_accesses (fixed : Bool) (cfg : Cfg) (w1 w2 : List REv) (hb : noBegin w2 = true)
+    (hn : 10 ≤ cCount w2) : (rafter fixed cfg (w1 ++ w2)).cpc = .idle :=
+  more_wait_free fixed cfg w1 w2 hb (Nat.le_trans (cgo_le _) hn)
+
+example : (rafter true cfg0 [.exec call0, .begin .get]).cpc.cgo = 10 ∧
+    noBegin [REv.c, .w, .c, .task (.ret ret0), .c, .w, .c, .c, .c, .c, .c, .c, .c] = true ∧
+    cCount [REv.c, .w, .c, .task (.ret ret0), .c, .w, .c, .c, .c, .c, .c, .c, .c] = 10 := by decide
+
+/-- AFTER THE END A STATUS QUERY REPORTS THE OUTCOME (composition of the above with the observation): the worker has
+ended with outcome `o` and the caller is idle; `job.status` + the three reads take exactly five accesses and answer
+`(o.st, o.msg, progress)`. -/
+theorem race_status_after_end (cfg : Cfg) (w : List REv) (o : Outcome)
+    (h : (rafter true cfg w).wpc = .dead o) (hidle : (rafter true cfg w).cpc = .idle) :
+    (rstep true cfg (rafter true cfg (w ++ [.begin .status, .c, .c, .c, .c])) .c).2 =
+      .step .rProg (some (.status o.st o.msg (rafter true cfg w).prog)) ∧
+    (rafter true cfg (w ++ [.begin .status, .c, .c, .c, .c, .c])).cpc = .idle :=
+  more_status_after_end cfg w o h hidle
+
+/-- AFTER A RETURN `get_results()` HANDS OUT THE VALUE, converted once if a conversion is pending (and then keeps it:
+`mapPending = false`), in exactly five accesses: never 'still running', never 'not available' — provided the
+conversion function is defined on the task's value (`hv`; the manifest's 'mapping function is total'). -/
+theorem race_results_after_end (cfg : Cfg) (w : List REv) (r v : Ret) (c : Bool)
+    (h : (rafter true cfg w).wpc = .dead (.returned r c)) (hidle : (rafter true cfg w).cpc = .idle)
+    (hv : if (rafter true cfg w).mapPending then convertRet (rafter true cfg w).mapping r = some v
+          else (rafter true cfg w).results = v) :
+    (rstep true cfg (rafter true cfg (w ++ [.begin .get, .c, .c, .c, .c])) .c).2 =
+      .step .rSt (some (.results v)) ∧
+    (rafter true cfg (w ++ [.begin .get, .c, .c, .c, .c, .c])).cpc = .idle ∧
+    (rafter true cfg (w ++ [.begin .get, .c, .c, .c, .c, .c])).results = v ∧
+    (rafter true cfg (w ++ [.begin .get, .c, .c, .c, .c, .c])).mapPending = false :=
+  more_results_after_end cfg w r v c h hidle hv
+
+example : (rafter true cfg1 [.exec call0, .w, .task (.ret ret0), .w, .w, .w, .w, .w, .w]).wpc =
+      .dead (.returned ret0 false) ∧
+    (rafter true cfg1 [.exec call0, .w, .task (.ret ret0), .w, .w, .w, .w, .w, .w]).cpc = .idle ∧
+    (rafter true cfg1 [.exec call0, .w, .task (.ret ret0), .w, .w, .w, .w, .w, .w]).mapPending = true ∧
+    convertRet (rafter true cfg1 [.exec call0, .w, .task (.ret ret0), .w, .w, .w, .w, .w, .w]).mapping ret0 =
+      some (.dict (.mapped (.nat 7) [(2, some 3)])) := by decide
+
+/-! ## The call-level machine is the access-level machine under non-preempting schedules
+(helpers: `Lemmas/C18Refine.lean`)
+
+`seqBlock e` = the accesses the asynchronous-mode event `e` of the call-level machine (`Model/C18.lean`) consists of,
+run without preemption; `Sim r s` = equal status, message, progress, cancel flag, results, pending conversion, both
+dictionaries and number of task entries, caller idle, worker at rest where the phase says (before the task / inside
+it / dead).  FULL STATEMENT WANTED: for EVERY schedule of the access-level machine there is a call-level history (a
+linearisation) with the same answers to every call and the same state whenever both threads are at rest.  PROVED
+HERE (`_partial`): the inclusion call-level ⊆ access-level — every call-level history of the asynchronous alphabet
+(no `execute_sync`, no exception escaping the callback) in which no event is impossible is realised by the
+non-preempting schedule `w.flatMap seqBlock`, with the same state after every event and the same answer to every
+event; so every ∀-schedules theorem of round 4 / wave 7 speaks about all asynchronous call-level histories.
+MISSING: the preempted schedules (a linearisation point for each `job.status` / `get_results` / `cancel` against the
+worker's three writes of `stop_run`). -/
+
+theorem race_refines_calls_partial (cfg : Cfg) (w : List Ev)
+    (ha : ∀ e ∈ w, asyncEv e = true) (hen : Out.disabled ∉ outs true cfg w) :
+    Sim (rafter true cfg (w.flatMap seqBlock)) (after true cfg w) :=
+  sim_exec cfg w _ _ (sim_init cfg) ha hen
+
+/-- the same, spelled out field by field -/
+theorem race_refines_calls_fields (cfg : Cfg) (w : List Ev)
+    (ha : ∀ e ∈ w, asyncEv e = true) (hen : Out.disabled ∉ outs true cfg w) :
+    (rafter true cfg (w.flatMap seqBlock)).st = (after true cfg w).status ∧
+    (rafter true cfg (w.flatMap seqBlock)).msg = (after true cfg w).msg ∧
+    (rafter true cfg (w.flatMap seqBlock)).prog = (after true cfg w).progress ∧
+    (rafter true cfg (w.flatMap seqBlock)).cancelReq = (after true cfg w).cancelReq ∧
+    (rafter true cfg (w.flatMap seqBlock)).results = (after true cfg w).results ∧
+    (rafter true cfg (w.flatMap seqBlock)).mapPending = (after true cfg w).mapPending ∧
+    (rafter true cfg (w.flatMap seqBlock)).command = (after true cfg w).command ∧
+    (rafter true cfg (w.flatMap seqBlock)).mapping = (after true cfg w).mapping ∧
+    (rafter true cfg (w.flatMap seqBlock)).fnCalls = (after true cfg w).fnCalls ∧
+    (rafter true cfg (w.flatMap seqBlock)).cpc = .idle := by
+  obtain ⟨h1, h2, h3, h4, h5, h6, h7, h8, h9, hc, _, _⟩ := race_refines_calls_partial cfg w ha hen
+  exact ⟨h1, h2, h3, h4, h5, h6, h7, h8, h9, hc⟩
+
+/-- THE ANSWERS AGREE.  After any such history `w`, the block of accesses of a further event `e` answers exactly what
+the call-level machine answers to `e` (status triple, results / 'still running' / 'failed' / 'not available',
+accepted / the exception of `_handle_params` / AssertionError, the arguments the task is entered with, the relay of
+the cancel request, the end of the task).  For a progress report the call-level answer also names the user callback
+invoked, which the access-level model does not have: there the job must have no user callback. -/
+theorem race_refines_calls_answers (cfg : Cfg) (w : List Ev) (e : Ev)
+    (ha : ∀ e' ∈ w, asyncEv e' = true) (hen : Out.disabled ∉ outs true cfg w) (hae : asyncEv e = true)
+    (hee : (step true cfg (after true cfg w) e).2 ≠ .disabled)
+    (hcb : (∃ p, e = .tProgress p) → (after true cfg w).userCb = none) :
+    blockAnswer cfg (rafter true cfg (w.flatMap seqBlock)) e = some (step true cfg (after true cfg w) e).2 :=
+  answer_step cfg _ _ e (race_refines_calls_partial cfg w ha hen) hae hee hcb
+
+/-- non-vacuity: an asynchronous history with a status query, a progress report, a cancel, the return and results -/
+example : (∀ e ∈ [Ev.execAsync call0, .tStart, .statusQuery, .tProgress 3, .cancel, .tReturn ret0, .statusQuery,
+      .getResults], asyncEv e = true) ∧
+    Out.disabled ∉ outs true cfg0 [.execAsync call0, .tStart, .statusQuery, .tProgress 3, .cancel, .tReturn ret0,
+      .statusQuery, .getResults] ∧
+    (after true cfg0 [.execAsync call0, .tStart, .statusQuery, .tProgress 3, .cancel, .tReturn ret0]).status =
+      .canceled := by decide
+
+/-- the hypothesis 'no impossible event' is needed: a return reported before the task was entered does nothing at
+call level, while the padded block lets the worker enter the task -/
+example : (after true cfg0 [.execAsync call0, .tReturn ret0]).fnCalls = 0 ∧
+    (rafter true cfg0 ([Ev.execAsync call0, .tReturn ret0].flatMap seqBlock)).fnCalls = 1 := by decide
+
+/- STILL NOT PROVED (wave 7): the other inclusion of the refinement (every PREEMPTED schedule of the access-level
+machine has a call-level linearisation), see the section comment above.  The theorems of this wave give the
+ingredients (every call and the worker's epilogue end in a bounded number of their own steps; the final state, the
+observation and the value after the end are those of the call-level machine; non-preempting schedules are call-level
+histories) but the simulation for preempted schedules is not stated.  Fairness is a hypothesis in the termination
+theorems (`wCount` / `cCount` of the continuation): the schedule is the environment's. -/
 
 end PM.C18
